@@ -44,13 +44,20 @@ pub enum Act {
     /// The environment appends piece i to the bytes that have arrived but were not read yet.
     Offer(u16),
     /// One `try_read`; k bytes have arrived (the stream hands over min(k, space offered)),
-    /// accompanied by f descriptors.
+    /// accompanied by f descriptors. The top bits of k select what the application does next:
+    /// `DEFER` nothing (it pops / writes after a later read), `POP_ONE` it pops exactly one
+    /// request, `WFAIL` it pops everything but the stream fails the first write with EPIPE.
     Read(u16, u8),
     /// One `try_read` answered with EAGAIN (0) / EINTR (1).
     Empty(u8),
     /// One `try_read` answered with 0 bytes (+ f descriptors).
     Eof(u8),
 }
+
+pub const DEFER: u16 = 0x8000;
+pub const POP_ONE: u16 = 0x4000;
+pub const WFAIL: u16 = 0x2000;
+pub const KMASK: u16 = 0x1fff;
 
 pub fn enc(a: Act) -> u64 {
     match a {
@@ -100,6 +107,12 @@ pub struct Cfg {
     /// the application answers every request it pops with a small 200 response and writes it
     /// out at once (the write path shares the connection object with the read path)
     pub answer_requests: bool,
+    /// also explore reads after which the first write of the pending output fails (EPIPE): the
+    /// output is lost, but reading must go on exactly as the stream dictates
+    pub write_faults: bool,
+    /// descriptors handed to the connection get numbers that zigzag around 600 in arrival
+    /// order (otherwise: lowest free number, so that a double close hits a recycled number)
+    pub zigzag_fds: bool,
 }
 
 impl Cfg {
@@ -120,6 +133,8 @@ impl Cfg {
             robust_only: false,
             allow_defer: false,
             answer_requests: false,
+            write_faults: false,
+            zigzag_fds: false,
         }
     }
     pub fn to_json(&self) -> Value {
@@ -131,7 +146,7 @@ impl Cfg {
             "empty_reads": self.empty_reads, "eof": self.eof,
             "continue_after_error": self.continue_after_error,
             "max_fds_per_read": self.max_fds_per_read, "max_pending_fds": self.max_pending_fds,
-            "offer_when_queued_le": self.offer_when_queued_le, "judge_errors": self.judge_errors, "robust_only": self.robust_only, "allow_defer": self.allow_defer, "answer_requests": self.answer_requests,
+            "offer_when_queued_le": self.offer_when_queued_le, "judge_errors": self.judge_errors, "robust_only": self.robust_only, "allow_defer": self.allow_defer, "answer_requests": self.answer_requests, "write_faults": self.write_faults, "zigzag_fds": self.zigzag_fds,
         })
     }
     pub fn from_json(v: &Value) -> Cfg {
@@ -167,6 +182,8 @@ impl Cfg {
             robust_only: v["robust_only"].as_bool().unwrap_or(false),
             allow_defer: v["allow_defer"].as_bool().unwrap_or(false),
             answer_requests: v["answer_requests"].as_bool().unwrap_or(false),
+            write_faults: v["write_faults"].as_bool().unwrap_or(false),
+            zigzag_fds: v["zigzag_fds"].as_bool().unwrap_or(false),
         }
     }
 }
@@ -224,12 +241,14 @@ pub fn view_request(r: &Request) -> SpecRequest {
         micro_http::Version::Http11 => Version::H11,
     };
     // `Uri` exposes its text only through `Debug` (and `get_abs_path`).
+    // Any Debug form that renders the text as a quoted string literal is understood
+    // (`Uri { string: "/x" }`, `Uri("/x")`, ...): the literal is what lies between the first
+    // and the last double quote.
     let dbg = format!("{:?}", r.uri());
-    let uri = dbg
-        .strip_prefix("Uri { string: ")
-        .and_then(|s| s.strip_suffix(" }"))
-        .map(|s| unescape_debug(s))
-        .unwrap_or(dbg.clone());
+    let uri = match (dbg.find('"'), dbg.rfind('"')) {
+        (Some(a), Some(b)) if b > a => unescape_debug(&dbg[a..=b]),
+        _ => dbg.clone(),
+    };
     SpecRequest {
         method,
         uri,
@@ -356,6 +375,8 @@ pub struct ReadObs {
     pub interim_garbage: Option<String>,
     pub write_calls_per_try_write_max: usize,
     pub drain_error: Option<String>,
+    /// the harness failed the first write of the drain (output is lost by design)
+    pub write_failed: bool,
 }
 
 /// Performs one `try_read` with the given stream answer, then pops all parsed requests and
@@ -367,6 +388,10 @@ pub fn do_read(c: &mut Conn, ans: ReadAns) -> ReadObs {
 /// `settle == false`: only `try_read` is called; parsed requests stay in the connection's queue
 /// and pending output stays unwritten (the application pops / writes later).
 pub fn do_read_opt(c: &mut Conn, ans: ReadAns, settle: bool) -> ReadObs {
+    do_read_full(c, ans, settle, false)
+}
+
+pub fn do_read_full(c: &mut Conn, ans: ReadAns, settle: bool, wfail: bool) -> ReadObs {
     let offered = match &ans {
         ReadAns::Data(b, _) => b.len(),
         _ => 0,
@@ -399,6 +424,7 @@ pub fn do_read_opt(c: &mut Conn, ans: ReadAns, settle: bool) -> ReadObs {
             interim_garbage: None,
             write_calls_per_try_write_max: 0,
             drain_error: None,
+            write_failed: false,
         };
     }
     loop {
@@ -422,9 +448,26 @@ pub fn do_read_opt(c: &mut Conn, ans: ReadAns, settle: bool) -> ReadObs {
             }
         }
     }
+    let mut write_failed = false;
+    if wfail && util::catch(|| c.conn.pending_write()).unwrap_or(false) {
+        // the stream fails the next write: the connection reports it and drops its output
+        {
+            let mut ctl = c.ctl.borrow_mut();
+            ctl.next_write = Some(crate::stream::WriteAns::Errno(libc::EPIPE));
+            ctl.write_calls = 0;
+        }
+        let r = util::catch(|| c.conn.try_write());
+        write_failed = true;
+        match r {
+            Err(p) => pop_panic = Some(format!("try_write panicked on a failing stream: {}", p)),
+            Ok(Ok(())) => pop_panic = Some("try_write returned Ok although the stream failed the write with EPIPE".into()),
+            Ok(Err(_)) => {}
+        }
+        c.ctl.borrow_mut().next_write = None;
+    }
     let (interim, interim_garbage, wmax, mut drain_error) = drain_output(c);
     let (interim, answers) = split_answers(interim);
-    if c.answer && answers != delivered.len() && drain_error.is_none() && interim_garbage.is_none() {
+    if c.answer && !write_failed && answers != delivered.len() && drain_error.is_none() && interim_garbage.is_none() {
         drain_error = Some(format!("the application answered {} popped requests but {} answers came out of the connection", delivered.len(), answers));
     }
     ReadObs {
@@ -438,6 +481,7 @@ pub fn do_read_opt(c: &mut Conn, ans: ReadAns, settle: bool) -> ReadObs {
         interim_garbage,
         write_calls_per_try_write_max: wmax,
         drain_error,
+        write_failed,
     }
 }
 
@@ -566,6 +610,9 @@ pub struct Exec<'a> {
     pub acc_fd_lists: std::collections::VecDeque<Vec<RawFd>>,
     pub acc_100: Vec<Version>,
     pub defer_streak: usize,
+    /// a write has failed earlier on this path (part of the state key: the connection may
+    /// remember it in fields the digest does not see)
+    pub had_wfail: bool,
     /// canonical (segmentation independent) observation: requests, interim responses, errors
     pub canon: [Vec<u8>; 3],
 }
@@ -593,6 +640,7 @@ impl<'a> Exec<'a> {
             steps: vec![],
             tracing,
             pipes: vec![],
+            had_wfail: false,
             pending_fds: vec![],
             delivered_files: vec![],
             delivered_count: 0,
@@ -623,8 +671,22 @@ impl<'a> Exec<'a> {
             unsafe {
                 libc::fcntl(p[1], libc::F_SETFL, libc::O_NONBLOCK);
             }
-            self.pipes.push((p[0], p[1]));
-            v.push(p[0]);
+            // descriptor numbers that are neither ascending nor descending in arrival order
+            // (zigzag around 600), so that no ordering by number coincides with arrival order
+            let rd = if self.cfg.zigzag_fds {
+                let n = self.pipes.len() as i32;
+                let target = if n % 2 == 0 { 600 + n / 2 } else { 599 - n / 2 };
+                let rd = unsafe { libc::dup2(p[0], target) };
+                assert_eq!(rd, target);
+                unsafe {
+                    libc::close(p[0]);
+                }
+                rd
+            } else {
+                p[0]
+            };
+            self.pipes.push((rd, p[1]));
+            v.push(rd);
         }
         v
     }
@@ -731,15 +793,20 @@ impl<'a> Exec<'a> {
     }
 
     fn read(&mut self, k: usize, f: u8) {
-        let defer = f & 0x80 != 0;
-        let pop_one = f & 0x40 != 0 && !defer;
-        let f = f & 0x3f;
+        let kk = k as u16;
+        let defer = kk & DEFER != 0;
+        let pop_one = kk & POP_ONE != 0 && !defer;
+        let wfail = kk & WFAIL != 0 && !defer && !pop_one;
+        let k = (kk & KMASK) as usize;
         self.defer_streak = if defer || pop_one { self.defer_streak + 1 } else { 0 };
         let k = k.min(self.queue.len());
         let arrived = self.queue[..k].to_vec();
         let fds = self.make_fds(f);
         let carry_before = self.machine.partial_line_len();
-        let o = do_read_opt(&mut self.c, ReadAns::Data(arrived.clone(), fds.clone()), !(defer || pop_one));
+        let o = do_read_full(&mut self.c, ReadAns::Data(arrived.clone(), fds.clone()), !(defer || pop_one), wfail);
+        if o.write_failed {
+            self.had_wfail = true;
+        }
         let taken = o.taken;
         let bytes: Vec<u8> = self.queue.drain(..taken).collect();
         self.stream_pos += taken;
@@ -791,7 +858,7 @@ impl<'a> Exec<'a> {
         let got: Vec<SpecRequest> = o.delivered.iter().map(view_request).collect();
         if self.tracing {
             self.steps.push(json!({
-                "action": format!("Read(arrived={}, fds={}{})", k, f, if defer { ", application does not pop/write yet" } else if pop_one { ", application pops one request only" } else { "" }),
+                "action": format!("Read(arrived={}, fds={}{})", k, f, if defer { ", application does not pop/write yet" } else if pop_one { ", application pops one request only" } else if wfail { ", the stream fails the next write (EPIPE)" } else { "" }),
                 "bytes_taken": show(&bytes), "space_offered": space,
                 "try_read": rs,
                 "delivered": got.iter().map(show_req).collect::<Vec<_>>(),
@@ -1018,7 +1085,7 @@ impl<'a> Exec<'a> {
             .iter()
             .map(|v| (if *v == Version::H10 { "HTTP/1.0".to_string() } else { "HTTP/1.1".to_string() }, 100u16, 0usize))
             .collect();
-        if got_100 != want_100s {
+        if !o.write_failed && got_100 != want_100s {
             return self.fail(
                 "interim-100",
                 format!("interim responses queued by this read: {:?}, expected {:?} (100 Continue exactly for each header block completed here with Expect and 0 < Content-Length <= limit)", got_100, want_100s),
@@ -1095,7 +1162,7 @@ impl<'a> Exec<'a> {
     pub fn key(&self) -> u128 {
         let d = self.c.conn.verif_digest();
         let t = self.twin.as_ref().map(|t| t.conn.verif_digest()).unwrap_or_default();
-        let flags = [self.terminal as u8, self.errored as u8, self.twin.is_some() as u8, self.pending_fds.len() as u8, self.acc_reqs.len() as u8, self.acc_100.len() as u8, self.acc_fd_lists.len() as u8, self.acc_fd_lists.iter().map(|l| l.len()).sum::<usize>() as u8, self.defer_streak as u8];
+        let flags = [self.terminal as u8, self.errored as u8, self.twin.is_some() as u8, self.pending_fds.len() as u8, self.acc_reqs.len() as u8, self.acc_100.len() as u8, self.acc_fd_lists.len() as u8, self.acc_fd_lists.iter().map(|l| l.len()).sum::<usize>() as u8, self.defer_streak as u8, self.had_wfail as u8];
         let pos = if self.cfg.stream.is_some() { self.stream_pos as u64 } else { 0 };
         util::hash128(&[&d, &t, &self.machine.digest(), if self.cfg.stream.is_some() { &[] } else { &self.queue }, &flags, &pos.to_le_bytes()])
     }
@@ -1150,10 +1217,13 @@ impl<'a> Exec<'a> {
                 // bounded: at most 3 reads in a row without the application looking, at most
                 // 2 requests / interim responses left waiting
                 if self.cfg.allow_defer && self.defer_streak < 3 && self.acc_reqs.len() < 2 && self.acc_100.len() < 2 {
-                    v.push(Act::Read(k as u16, f | 0x80));
+                    v.push(Act::Read(k as u16 | DEFER, f));
                 }
                 if self.cfg.allow_defer && self.defer_streak < 3 && self.acc_reqs.len() < 3 && self.acc_100.len() < 2 {
-                    v.push(Act::Read(k as u16, f | 0x40));
+                    v.push(Act::Read(k as u16 | POP_ONE, f));
+                }
+                if self.cfg.write_faults && f == 0 && !self.had_wfail {
+                    v.push(Act::Read(k as u16 | WFAIL, f));
                 }
             }
         }
@@ -1365,7 +1435,7 @@ pub fn run_segments(cfg: &Cfg, segments: &[usize], empties: bool) -> (Option<(St
         }
         let mut left = *seg;
         while left > 0 && !e.queue.is_empty() {
-            let a = Act::Read(left.min(60000) as u16, 0);
+            let a = Act::Read(left.min(KMASK as usize) as u16, 0);
             let before = e.stream_pos;
             acts.push(a);
             e.step(a);
